@@ -24,6 +24,10 @@ THEOREMS = {"Artap.Props.C05": [
     "C05_marker_ranks_feasible_first", "C05_sweep_order", "C05_scalar_bridge", "C05_scalar_bridge_general",
     "C05_roundp_q_precision", "C05_round7_q_precision", "C05_roundp_q_fixpoint"]}
 AXIOMS_OK = []
+# second tie to the code (tools/py2coq.py + coq/theories/GenProofs): the source of Individual.calc_signed_costs is
+# translated on every run and proved equal to Model/Job.v signed_costs
+from harness.core import translated_specs
+TRANSLATED = translated_specs("SignedCostsGen")
 TRUSTED = [
     "Coq 8.16.1 kernel, vm_compute for model evaluation (no native_compute)",
     "hand-written model Model/Job.v tied to job.py / operators.py / individual.py / algorithm_sweep.py by this correspondence run",
